@@ -37,7 +37,7 @@ def epsilon_closure(N: NFA, q: Union[State, Set[State]]) -> Set[State]:
         if _verif.ON: _rest = _verif.force('ec.pop', todo)
         q = todo.pop()
         if _verif.ON: _verif.restore(todo, _rest)
-        Q1: Set[State] = N.delta[q, N.epsilon] - result
+        Q1: Set[State] = N.delta.get((q, N.epsilon), set()) - result
         result = result | Q1
         todo = todo | Q1
         if _verif.ON: _verif.emit('ec.pop', q=q, result=sorted(result), todo=sorted(todo))
@@ -199,7 +199,7 @@ def nfa_to_dfa(N: NFA) -> DFA:
         for a in Sigma:
             Q2 = set([])
             for q1 in Q1:
-                Q2 |= N.delta[q1, a]
+                Q2 |= N.delta.get((q1, a), set())
             Q2 = epsilon_closure(N, Q2)
             stateQ2 = state(Q2)
             delta[stateQ1, a] = stateQ2
